@@ -812,7 +812,7 @@ func (g *gen) c07Case(p *plan, v pathVar, idx int, qv, bv string, ex c07Extra) (
 	return c, nil
 }
 
-const ruleC07 = "every rule of the C03 catalogue with at least one path variable (vf.Req, ComplexRequest and the real larking.testpb annotations incl. Files.UploadDownload; top-level, nested and doubly nested fields; typed, enum, oneof and well-known-type variables; body '*', body <field>, no body). For every variable and several captures: competing, different values for the same field through the query string (proto name, JSON name, the key twice, before / after another key) and / or the body (JSON, protobuf, gzip JSON; body '*' or a body field that contains the variable), all combinations. In addition, for every variable on a nested field: 1-3 query parameters on same-typed sibling sub-messages (vf.Req sub / osub, ComplexRequest nested / oneof_nested; the sibling's field of the same name first) before / after the competing key, x query x body competitors; and for every variable: a repeated query field of 10, 63, 64, 65, 200, 1000 elements next to the competitors. These requests are served 4 times each (query parameters are applied in map order). Oracle: the handler's value of the field equals the protojson value of the path capture, and - for the cases with non-competing parameters on rules without body '*' - the whole message equals the capture(s) plus every parameter the client sent; a request rejected with an error status is allowed. Streaming HTTP rules (HttpBody uploads on client-streaming and bidi methods incl. the real Files.LargeUploadDownload, server-streaming downloads) run the query matrix with every way the handler can obtain the first message (stream.Recv looping to EOF, larking.AsHTTPBodyReader; replies through stream.Send and larking.AsHTTPBodyWriter). The body competitor also comes as application/x-www-form-urlencoded (with / without charset), multipart/form-data, text/plain and application/json; charset=utf-8: whatever the tree accepts must not override the path, a refusal is no claim. Also 13, 14, 20 and 40 URL parameters on distinct keys (one naming the bound field), each request served 20 times. The catalogue includes constant variables ({f=lit}, {f=lit/lit}, typed {f=true}, {e=RED}, the real Messaging.Action {text=action}) and variables of every scalar kind and bytes (top-level and nested) on rules that map a body; bytes captures are spelled std / url-safe, padded / unpadded; bodies carry the competing value or do not name the field at all, with fillers of 0-6000 bytes. A quarter of the requests send the path in an over-escaped spelling (URL.RawPath set): the capture is the decoded path text. A fifth of the cases on dynamic unary rules go to a mux that proxies the services of TWO real loopback gRPC back-ends attached with RegisterConn, one healthy and one whose handlers answer Unavailable (503 answers are not judged; each such case is served 4 times). Variables bound to (fields under) members of a oneof get competitors naming SIBLING members in query and body. Templates ending in ** (bare or variable) after other variables are also requested with a zero-segment tail (with / without trailing slash): refused or bound as usual. Typed variables also capture odd texts (null, NULL, Null, nil, undefined, NaN, true, false, 0, -0, none, Infinity) next to query / body competitors: the route may be refused or the field holds a proto3-JSON reading of the text, never the competitor. Control frames (ping, unsolicited pong) are interleaved before the first and between data frames. WebSocket transport (real loopback listener through larking.NewServer): websocket-kind bindings on bidi methods (vf.Req top-level / nested / typed / bytes / multi-segment variables, body '*' and body field; the real testpb ChatRoom.Chat) with the competing value in the query string, in the first frame and / or in later frames (1-3 frames, each acknowledged by the handler): the first message the handler receives must carry the capture. distinct = (rule, variable, query variant, body variant, sibling / list-size variant | websocket frame variant) of dispatched requests that kept the capture"
+const ruleC07 = "every rule of the C03 catalogue with at least one path variable (vf.Req, ComplexRequest and the real larking.testpb annotations incl. Files.UploadDownload; top-level, nested and doubly nested fields; typed, enum, oneof and well-known-type variables; body '*', body <field>, no body). For every variable and several captures: competing, different values for the same field through the query string (proto name, JSON name, the key twice, before / after another key) and / or the body (JSON, protobuf, gzip JSON; body '*' or a body field that contains the variable), all combinations. In addition, for every variable on a nested field: 1-3 query parameters on same-typed sibling sub-messages (vf.Req sub / osub, ComplexRequest nested / oneof_nested; the sibling's field of the same name first) before / after the competing key, x query x body competitors; and for every variable: a repeated query field of 10, 63, 64, 65, 200, 1000 elements next to the competitors. These requests are served 4 times each (query parameters are applied in map order). Oracle: the handler's value of the field equals the protojson value of the path capture, and - for the cases with non-competing parameters on rules without body '*' - the whole message equals the capture(s) plus every parameter the client sent; a request rejected with an error status is allowed. Streaming HTTP rules (HttpBody uploads on client-streaming and bidi methods incl. the real Files.LargeUploadDownload, server-streaming downloads) run the query matrix with every way the handler can obtain the first message (stream.Recv looping to EOF, larking.AsHTTPBodyReader; replies through stream.Send and larking.AsHTTPBodyWriter). The body competitor also comes as application/x-www-form-urlencoded (with / without charset), multipart/form-data, text/plain and application/json; charset=utf-8: whatever the tree accepts must not override the path, a refusal is no claim. Also 13, 14, 20 and 40 URL parameters on distinct keys (one naming the bound field), each request served 20 times. The catalogue includes constant variables ({f=lit}, {f=lit/lit}, typed {f=true}, {e=RED}, the real Messaging.Action {text=action}) and variables of every scalar kind and bytes (top-level and nested) on rules that map a body; bytes captures are spelled std / url-safe, padded / unpadded; bodies carry the competing value or do not name the field at all, with fillers of 0-6000 bytes. A quarter of the requests send the path in an over-escaped spelling (URL.RawPath set): the capture is the decoded path text. A fifth of the cases on dynamic unary rules go to a mux that proxies the services of TWO real loopback gRPC back-ends attached with RegisterConn, one healthy and one whose handlers answer Unavailable (503 answers are not judged; each such case is served 4 times). Variables bound to (fields under) members of a oneof get competitors naming SIBLING members in query and body. Templates ending in ** (bare or variable) after other variables are also requested with a zero-segment tail (with / without trailing slash): refused or bound as usual. Typed variables also capture odd texts (null, NULL, Null, nil, undefined, NaN, true, false, 0, -0, none, Infinity) next to query / body competitors: the route may be refused or the field holds a proto3-JSON reading of the text, never the competitor. Control frames (ping, unsolicited pong) are interleaved before the first and between data frames. WebSocket transport (real loopback listener through larking.NewServer): websocket-kind bindings on bidi methods (vf.Req top-level / nested / typed / bytes / multi-segment variables, body '*' and body field; the real testpb ChatRoom.Chat) with the competing value in the query string, in the first frame and / or in later frames (1-3 frames, each acknowledged by the handler): the first message the handler receives must carry the capture. WebSocket value classes: websocket-kind bindings whose variables cover every scalar kind (all integer widths and encodings, bool, enum, float, double, string, bytes; top-level, nested and doubly nested, oneof members, Int64Value and Duration; vf.Req and ComplexRequest; body '*', body field, no body); for every variable the capture and the competing values are drawn from the two value classes of the field - its ZERO value (0, false, first enum value by name and by number, empty string / bytes as competitors, 0s, wrapper of 0) and other values - as (zero capture, other competitor), (other capture, zero competitor, written explicitly in the query string and the JSON frame) and (other, other), x competitor in the query string / the first frame / both, x the rule's other variables capturing table values or their zero values too; finding keys carry capture=<class>,competitor=<class>:<kind group>. distinct = (rule, variable, query variant, body variant, sibling / list-size variant | websocket frame variant) of dispatched requests that kept the capture"
 
 // RunC07 is the path-bound-fields-are-authoritative check.
 func RunC07(r *mon.Run) {
@@ -1005,6 +1005,9 @@ func RunC07(r *mon.Run) {
 	}
 	// the same precedence over the WebSocket transport
 	runWS(r, g)
+	// ... with captures and competitors of both value classes (zero value /
+	// other values) for every scalar kind
+	runWSKinds(r, g)
 	// overlapping requests for the same binding
 	runConcC07(r, g)
 }
@@ -1125,6 +1128,11 @@ func execC07WS(e *env, c *Case) (o outcome) {
 		}
 		delivered++
 	}
+	if len(c.Frames) == 0 {
+		// no body is mapped: the handler's only message is built from the URL
+		// and acknowledged without any frame from the client
+		wsutil.ReadServerText(conn) //nolint:errcheck
+	}
 	ws.WriteFrame(conn, ws.MaskFrameInPlace(ws.NewCloseFrame(ws.NewCloseFrameBody(ws.StatusNormalClosure, "")))) //nolint:errcheck
 	calls := e.rec.take()
 	if strings.Contains(srv.ErrLog(), "panic serving") {
@@ -1135,7 +1143,9 @@ func execC07WS(e *env, c *Case) (o outcome) {
 		o.count("c07_ws_first_frame_rejected_(allowed)")
 		return
 	}
-	o.evals = len(c.Frames) - 1
+	if o.evals = len(c.Frames) - 1; o.evals < 0 {
+		o.evals = 0
+	}
 	ctl := ""
 	for i, f := range c.Frames {
 		if f == wsPing || f == wsPong {
@@ -1160,12 +1170,34 @@ func execC07WS(e *env, c *Case) (o outcome) {
 				}
 			}
 		}
-		o.add("c07:path-bound-overridden:by="+by+":websocket"+ctl, fmt.Sprintf("websocket rule %s body=%q: ws %s?%s, frames %q (competing %s): path-bound field %s was captured as %q but the first message the handler received has %s (whole message: %s)",
-			c.Rule.Tmpl, c.Rule.Body, c.Req.Path, c.Req.RawQuery, c.Frames, c.Via, c.Field, c.Text, jsonOf(got), jsonOf(calls[0].msg)))
+		cls := ""
+		if strings.HasPrefix(c.Extra, "capture=") {
+			// value-class dimension: capture=<zero-value|nonzero>,competitor=<...>:<kind group>
+			cls = ":" + c.Extra
+		}
+		o.add("c07:path-bound-overridden:by="+by+":websocket"+ctl+cls, fmt.Sprintf("websocket rule %s body=%q: ws %s?%s, frames %q (competing %s): path-bound field %s (%s) was captured as %q but the first message the handler received has %s (whole message: %s)",
+			c.Rule.Tmpl, c.Rule.Body, c.Req.Path, c.Req.RawQuery, c.Frames, c.Via, c.Field, kindClass(fds[len(fds)-1]), c.Text, jsonOf(got), jsonOf(calls[0].msg)))
 		return
 	}
 	o.distinct = "c07|ws|" + c.Rule.ID + "|" + c.Field + "|" + c.Via
 	o.count("c07_ws_first_message_kept_capture")
+	if strings.HasPrefix(c.Extra, "capture=") {
+		if strings.HasPrefix(c.Extra, "capture=zero-value") {
+			o.count("c07_ws_zero_value_capture_kept")
+		}
+		if strings.HasPrefix(c.Extra, "capture=negative-zero") {
+			o.count("c07_ws_negative_zero_capture_kept")
+		}
+		if strings.Contains(c.Extra, "competitor=zero-value") {
+			o.count("c07_ws_zero_value_competitor_ignored")
+		}
+		for _, ch := range []string{"query", "body"} {
+			if _, ok := c.Compete[ch]; ok {
+				o.count("c07_ws_value_class_competitor_in_" + ch)
+			}
+		}
+		o.count("c07_ws_value_class_kind:" + kindClass(fds[len(fds)-1]))
+	}
 	if delivered > 1 {
 		o.count("c07_ws_later_frames_delivered")
 	}
